@@ -113,14 +113,18 @@ def _content(path):
     return data if n is None else data[:n]
 
 
+LOG_CAP = 200000   # an implementation stuck in a read loop must not exhaust the memory of the worker (and the result pipe) with its events
+
+
 def _emit(ev):
     ev["t"] = threading.get_ident()
     s = SCHED[0]
     if s is not None:
         s.yield_point(ev)
     with _lock:
-        ev["seq"] = len(LOG)
-        LOG.append(ev)
+        if len(LOG) < LOG_CAP:
+            ev["seq"] = len(LOG)
+            LOG.append(ev)
 
 
 def base(path):
@@ -183,8 +187,9 @@ class TracedFile(io.BytesIO):
             _emit(ev)
         else:
             with _lock:
-                ev["seq"] = len(LOG)
-                LOG.append(ev)
+                if len(LOG) < LOG_CAP:
+                    ev["seq"] = len(LOG)
+                    LOG.append(ev)
         return data
 
     def readinto(self, b):
